@@ -41,6 +41,7 @@ type peer struct {
 	bout    *bytes.Buffer
 	extra   string // "", "status-before": an onStatus call and a user-control ping precede every response
 	answered int
+	script  *scriptPeer // non-nil: the peer follows a fixed script instead (unmatched.go)
 }
 
 type rwBuf struct{ *bytes.Buffer }
@@ -66,6 +67,9 @@ func parseCommand(p []byte) (string, float64, bool) {
 
 // onBytes feeds what the endpoint wrote and returns response bytes that become readable now.
 func (p *peer) onBytes(b []byte) []byte {
+	if p.script != nil {
+		return p.script.onBytes(b)
+	}
 	p.de.Feed(b)
 	var out []byte
 	for ; p.handled < len(p.de.Msgs); p.handled++ {
@@ -566,11 +570,13 @@ func racePass(c *hl.Ctx) {
 		}
 		c.Add("race_runs", 1)
 	}
+	raceUnmatched(c)
 }
 
 func run(c *hl.Ctx) {
-	c.Rule("E1: every interleaving of writer W (WritePacket per request) and reader R (ReadMessage+DecodeMessage per response) on one Protocol; scheduling points: transport Write (before it performs; the peer's answer becomes readable inside it), transport Read (enabled iff bytes are readable), Lock/Unlock of the transaction-table mutex (R1). Transport variants: unlimited, back-pressured (1/8/64 bytes in flight, the peer accepts the next request only when its output is delivered) and segmented delivery (reads of at most 1/3/7 bytes, so the reader is descheduled inside chunk headers and payloads). Transaction ids next to each other that collide under integer conversion (1 and 1.5, 2 and 2^32+2, fractions, 2^31, 2^53, 2^63; ids <= 0 mean 'no response expected' and are not used). Transport write failures: the k-th Write either delivers its bytes and still reports an error or accepts nothing, for every k (responses to delivered requests must still be matched). Bounds iterated 0,1,2,3,unbounded; state-key pruning for the larger scenarios. state = distinct observable outcome (records + read sizes); transition = scheduling step.")
-	c.Assume("the peer answers in request order, each answer complete and readable before the request's Write returns", "unsynchronised accesses between scheduling points are judged by the separate free-running race-detector pass", "transaction table observed by reflection (skipped if the field path input.transactions disappears)")
+	c.Rule("E1: every interleaving of writer W (WritePacket per request) and reader R (ReadMessage+DecodeMessage per response) on one Protocol; scheduling points: transport Write (before it performs; the peer's answer becomes readable inside it), transport Read (enabled iff bytes are readable), Lock/Unlock of the transaction-table mutex (R1). Transport variants: unlimited, back-pressured (1/8/64 bytes in flight, the peer accepts the next request only when its output is delivered) and segmented delivery (reads of at most 1/3/7 bytes, so the reader is descheduled inside chunk headers and payloads). Transaction ids next to each other that collide under integer conversion (1 and 1.5, 2 and 2^32+2, fractions, 2^31, 2^53, 2^63; ids <= 0 mean 'no response expected' and are not used). Transport write failures: the k-th Write either delivers its bytes and still reports an error or accepts nothing, for every k (responses to delivered requests must still be matched). Bounds iterated 0,1,2,3,unbounded; state-key pruning for the larger scenarios. state = distinct observable outcome (records + read sizes); transition = scheduling step. " + umRule)
+	c.Assume("the peer answers in request order, each answer complete and readable before the request's Write returns", "unsynchronised accesses between scheduling points are judged by the separate free-running race-detector pass", "transaction table observed by reflection (skipped if the field path input.transactions disappears)",
+		"family unmatched: what a response that matches no recorded request yields is not judged beyond 'not matched to a request' (an error of that one read, as the library does, or a generic packet are both accepted); after a DecodeMessage error the reader goes on reading (the message was consumed); the mutex state is observed by reflection at input.ltransactions.locked (that clause is skipped if the path disappears)")
 	if c.Mode() == "race" {
 		racePass(c)
 		return
@@ -584,9 +590,13 @@ func run(c *hl.Ctx) {
 		}
 	}
 	c.Info("completed_preemption_bound_per_scenario", done)
+	runUnmatched(c)
 }
 
 func replay(c *hl.Ctx, raw json.RawMessage) {
+	if replayUnmatched(c, raw) {
+		return
+	}
 	var rc mc.ReplayCase
 	if err := json.Unmarshal(raw, &rc); err != nil {
 		panic(err)
